@@ -489,7 +489,7 @@ func timerCfg(repo string) (perArm, stopCloses, recheck, capture bool) {
 }
 
 // ---- ws/websocket.go: design facts of the adapter
-func wsCfg(repo string) (pumpClosesQueue, writeSelectsClose, shutdownAlways, reportIfFirst, farewellInsideOnce bool) {
+func wsCfg(repo string) (pumpClosesQueue, writeSelectsClose, shutdownAlways, reportIfFirst, farewellInsideOnce, readerRechecks bool) {
 	f := parse(repo, "ws/websocket.go")
 	// any close(…shipWriteChannel) in the file
 	ast.Inspect(f, func(x ast.Node) bool {
@@ -610,6 +610,32 @@ func wsCfg(repo string) (pumpClosesQueue, writeSelectsClose, shutdownAlways, rep
 		if !containsCall(cd.Body, onceFunc) {
 			farewellInsideOnce = false
 		}
+	}
+	// readShipPump: the statement after the read is `if w.isConnClosed() { return }`
+	if rp := funcDecl(f, "readShipPump"); rp != nil {
+		ast.Inspect(rp.Body, func(x ast.Node) bool {
+			var list []ast.Stmt
+			switch b := x.(type) {
+			case *ast.BlockStmt:
+				list = b.List
+			case *ast.CommClause:
+				list = b.Body
+			case *ast.CaseClause:
+				list = b.Body
+			}
+			for i, st := range list {
+				as, ok := st.(*ast.AssignStmt)
+				if !ok || !containsCall(as, "readWebsocketMessage") || i+1 >= len(list) {
+					continue
+				}
+				if ifs, ok := list[i+1].(*ast.IfStmt); ok && containsCall(ifs.Cond, "isConnClosed") && len(ifs.Body.List) == 1 {
+					if _, ok := ifs.Body.List[0].(*ast.ReturnStmt); ok {
+						readerRechecks = true
+					}
+				}
+			}
+			return true
+		})
 	}
 	return
 }
@@ -801,8 +827,8 @@ func main() {
 		files["TimerFacts.lean"] = fmt.Sprintf("/- GENERATED by /verif/extract from /repo — do not edit. -/\nimport ShipVerif.Model.Timer\nnamespace ShipVerif.Generated\n\n/-- ship/handshake.go setHandshakeTimer / stopHandshakeTimer: design facts -/\ndef timerCfg : ShipVerif.Timer.Cfg := { perArmChannel := %v, stopCloses := %v, recheck := %v, captureAtArm := %v }\n\nend ShipVerif.Generated\n", a, b, c, d)
 	}
 	{
-		a, b, c, d, e := wsCfg(*repo)
-		files["WsFacts.lean"] = fmt.Sprintf("/- GENERATED by /verif/extract from /repo — do not edit. -/\nimport ShipVerif.Model.Ws\nnamespace ShipVerif.Generated\n\n/-- ws/websocket.go: design facts -/\ndef wsCfg : ShipVerif.Ws.Cfg := { pumpClosesQueue := %v, writeSelectsClose := %v, shutdownAlways := %v, reportIfFirst := %v, farewellInsideOnce := %v }\n\nend ShipVerif.Generated\n", a, b, c, d, e)
+		a, b, c, d, e, g := wsCfg(*repo)
+		files["WsFacts.lean"] = fmt.Sprintf("/- GENERATED by /verif/extract from /repo — do not edit. -/\nimport ShipVerif.Model.Ws\nnamespace ShipVerif.Generated\n\n/-- ws/websocket.go: design facts -/\ndef wsCfg : ShipVerif.Ws.Cfg := { pumpClosesQueue := %v, writeSelectsClose := %v, shutdownAlways := %v, reportIfFirst := %v, farewellInsideOnce := %v, readerRechecks := %v }\n\nend ShipVerif.Generated\n", a, b, c, d, e, g)
 	}
 	{
 		a, b := avahiCfg(*repo)
